@@ -176,7 +176,7 @@ def check_server(ctx, fns, n):
         it = iter(dmr_response(fns[3]("v", np.zeros((), dtype=dt))))
         first = next(it)
         tag = first.strip()[1:].split(" ")[0]
-        tag_cases.append(("dmr-tag " + G.hexs(str(dt)), G.hexs(tag), {"dtype": name}))
+        tag_cases.append(("dmr-tag %s %s" % (dt.kind, G.hexs(str(dt))), G.hexs(tag), {"dtype": name}))
     ctx.correspond("responses/dmr.py element tag", tag_cases)
     for i in range(n):
         # the server renders shared dimensions only: named Dims, all numeric types
